@@ -11,11 +11,11 @@ CHECKS = {
             "Generated search: arbitrary arity-correct presentation MathML (incl. degenerate children, wrappers, mfenced, mmultiscripts, tables) x separator locales; the visible character sequence of the input must equal that of the MathML returned by set_mathml after a character-only normalisation. Finds silent loss/invention of content; no claim beyond the generator bounds.",
             "Trusts sxd-document as XML parser, the NFKC table from Python's unicodedata for styled letters, and the normalisation N of DESIGN.md C01. Known findings are excluded by input-trigger signature and counted.",
             "DESIGN.md 3/C01"),
-    "C02": ("property-based testing (proptest generators + shrinking), validity predicate over the returned MathML parsed by an independent XML parser",
+    "C02": ("property-based testing (proptest generators + shrinking) plus a coverage-guided libFuzzer target (fz_c02, thorough tier) with the same oracle: validity predicate over the returned MathML parsed by an independent XML parser",
             "Generated search over accepted inputs (G-struct with planted special-character attributes, G-wild mutants, raw strings) and over get_navigation_mathml after random moves; the returned string must parse and satisfy the canonical-form predicate of the statement (arities, paired multiscripts, no empty token, no short mrow without intent, wrappers gone, attribute escaping).",
             "Trusts sxd-document as the independent parser. Known findings are excluded by input-trigger signature (shared with C01) and counted.",
             "DESIGN.md 3/C02"),
-    "C08": ("property-based testing over API call histories (stateful, model-based: fresh-session reference model), process isolation for aborts",
+    "C08": ("property-based testing over API call histories (stateful, model-based: fresh-session reference model), process isolation for aborts; plus a coverage-guided libFuzzer target (fz_c08, thorough tier) for the no-panic clause on arbitrary input strings",
             "Generated histories over all 16 public entry points with valid, wrong-kind, hostile and stale arguments in any order; every call must return (panic hook + catch_unwind; aborts and hangs observed through worker processes), and after errors a probe expression must give exactly the outputs of a fresh session in which the accepted state-changing calls were replayed. A separate nesting-depth class runs in child processes.",
             "Recovery is asserted only for sessions that began with a successful set_rules_dir (documented precondition); panics are reported for every order. Debug assertions and overflow checks are on. Hangs are counted, not reported as violations unless they fall in a known input class.",
             "DESIGN.md 3/C08"),
@@ -59,12 +59,12 @@ CHECKS = {
             "Generated textbook expressions x engine {SSML, SAPI5} x language, style, verbosity and all prosody / capital-letter / bookmark preferences; the engine string must scan (attribute syntax), use only the engine's tag vocabulary, nest and close properly, carry only marks that name ids of the expression (none without Bookmark), and after removing tags spell the same words as the TTS=None speech.",
             "Word boundaries around concatenated pieces are not asserted (comparison on characters with white space and pause punctuation removed).",
             "DESIGN.md 3/C13"),
-    "C19": ("property-based testing with a grammar generator, single-edit mutation and arbitrary strings; reference recogniser + differential against the attribute-removed expression",
+    "C19": ("property-based testing with a grammar generator, single-edit mutation and arbitrary strings, plus a coverage-guided libFuzzer target (fz_c19, thorough tier) with the same oracle; reference recogniser + differential against the attribute-removed expression",
             "Generated intent strings (grammatical, mutants, arbitrary Unicode, honoured form) on 9 kinds of host element x both recovery settings; never a panic; under IgnoreIntent speech succeeds and, for strings a reference recogniser proves illegal, equals the speech without the attribute; under Error illegal strings yield Err; name(args) with a made-up name mentions the name and every referenced literal; speech is repeatable and the intent attributes are still on the stored expression afterwards.",
             "Intents naming concepts MathCAT knows (plus, power, ...) are only checked for panics when grammatical (wrong arity makes the concept's own rule fail, which the statement does not cover).",
             "DESIGN.md 3/C19"),
     "C10": ("model-based property testing over API histories: every observed output is compared with a fresh-session reference model",
-            "Generated histories (preference changes over 22 preferences, other expressions, getters, navigation, cursor routing) followed by a target assignment of all those preferences in generated order, the probe expression, getters in generated order and multiplicity and away-and-back toggles; each output must be byte-identical (ids normalised) to a fresh session that establishes the same assignment, sets the expression and calls that getter once; a share of cases runs beside independent sessions in other threads.",
+            "Generated histories (preference changes over 24 preferences (incl. the computed separator pair), other expressions, getters, navigation, cursor routing) followed by a target assignment of all those preferences in generated order, the probe expression, getters in generated order and multiplicity and away-and-back toggles; each output must be byte-identical (ids normalised) to a fresh session that establishes the same assignment, sets the expression and calls that getter once; a share of cases runs beside independent sessions in other threads.",
             "Thread interleavings are sampled, not explored (all state is thread-local). Outputs are only observed while the target assignment is in force (documented: an expression is canonicalised with the preferences current at set_mathml time).",
             "DESIGN.md 3/C10"),
     "C20": ("property-based testing with per-expression exhaustive probing (every node id, every cell index) and a purity snapshot oracle",
@@ -128,12 +128,14 @@ def main():
             "add_only": True,
         },
         "engines": [
+            {"name": "libfuzzer-targets", "path": "/verif/fuzz", "serves_properties": ["C02", "C08", "C19"],
+             "kind_free_text": "cargo-fuzz crate (nightly, libFuzzer, ASan): fz_c02 / fz_c08 / fz_c19 decode bytes into a case and evaluate it with the same Property::eval as mcv; run by ./check <ID> thorough after the generated part; saved crash inputs are replayed by both tiers with the stable build"},
             {"name": "mcv", "path": "/verif/harness", "serves_properties": sorted(CHECKS.keys()),
              "kind_free_text": "Rust binary linking MathCAT from /repo (path dependency): proptest strategies generate cases as a pure function of (VERIF_SEED, property, index); ranges of cases run in worker processes (an abort or hang costs one case); explicit oracles per property; violations are confirmed in a fresh session, shrunk with proptest's value trees and written as replay files; known findings are matched by signature"},
         ],
         "checks": checks,
         "not_applicable": [{"property_id": p, "reason": NOT_YET} for p in ALL if p not in CHECKS],
-        "notes": "exit codes: 0 held, 1 violation (VIOLATION line), 2 inconclusive (watchdog), 3 build/usage error. VERIF_SEED selects the PRNG stream; VERIF_SCALE scales case counts (smoke runs only).",
+        "notes": "exit codes: 0 held, 1 violation (VIOLATION line), 2 inconclusive (watchdog / fuzzer crash that is not an oracle violation), 3 build/usage error. VERIF_SEED selects the PRNG stream; VERIF_SCALE scales case counts (smoke runs only); VERIF_FUZZ_SECS (default 300, 0 = off) is the budget of the libFuzzer phase of the thorough tier of C02/C08/C19 (needs cargo +nightly fuzz; skipped with a note if that build fails).",
     }
     json.dump(m, open(os.path.join(ROOT, "MANIFEST.json"), "w"), indent=1)
     print("MANIFEST.json:", len(checks), "checks,", len(m["not_applicable"]), "not_applicable")
